@@ -18,11 +18,16 @@ are sampled (2–96 threads sharing Arc<Node> and Arc<context>).
 import EvalexprVerif.Proofs.EvalOrder
 import EvalexprVerif.Proofs.AgreePurity
 import EvalexprVerif.Proofs.Interleave
+import EvalexprVerif.Proofs.AgreeFnTree
 
 namespace Evalexpr.Spec.C15
 open Evalexpr Evalexpr.Spec
 
 theorem C15_frame (n : Node) (s : St) : (n.evalRO s).2.ctx = s.ctx := Evalexpr.Spec.C11_readonly n s
+/-- the same about the code as translated on this run (`Gen.Node.eval_with_context`: the rendered body of
+`Node::eval_with_context`) -/
+theorem C15_frame_generated (n : Node) (s : St) : (Gen.Node.eval_with_context n s).2.ctx = s.ctx := by
+  rw [AgreeFn.fn_Node_eval_with_context_agree]; exact C15_frame n s
 theorem C15_log_irrelevant (n : Node) (c : Ctx) (l : List (Str × Value)) :
     (n.evalRO ⟨c, l⟩).1 = (n.evalRO ⟨c, []⟩).1 ∧
       (n.evalRO ⟨c, l⟩).2.log = l ++ (n.evalRO ⟨c, []⟩).2.log := Evalexpr.Spec.C15_log_irrelevant n c l
